@@ -1,4 +1,5 @@
 import Bgpfu.Drive.Framing
+import Bgpfu.Drive.Irr
 /-! `modeld`: one request per line on stdin, one answer per line on stdout.
 A line is `<op> <arg>…` separated by single spaces; unknown ops / malformed args answer `bad-op`. -/
 
@@ -6,6 +7,7 @@ def dispatch (ws : List String) : String :=
   let r :=
     match ws with
     | "frame" :: rest => Framing.drive rest
+    | "irr" :: rest => Irr.drive rest
     | _ => none
   r.getD "bad-op"
 
